@@ -756,6 +756,12 @@ pub fn c14_case(rs: u64, _nonce: u64, replay: Option<Vec<u32>>) -> CaseOutcome {
         s.image.header.pdi_config2 = t.bits32("h3") as u16;
         s.image.header.reserved5_6 = [t.bits32("h5") as u16, t.bits32("h6") as u16];
         s.eeprom = s.image.encode(true);
+        // A checksum word that does not match (an interrupted earlier write, a factory image
+        // that was never sealed): the alias write must leave a correct one behind all the same.
+        if crate::tape::gen() >= 2 && t.flag(30, 100, "stale_checksum") {
+            let v = (t.bits32("stale_crc") as u16) | 0x0100;
+            s.eeprom[14..16].copy_from_slice(&v.to_le_bytes());
+        }
         seg.devices[0].eeprom = s.eeprom.clone();
     }
     let mode = t.choose(3, "mode"); // 0 alias, 1 generic write, 2 alias with a busy-forever device
@@ -788,10 +794,35 @@ pub fn c14_case(rs: u64, _nonce: u64, replay: Option<Vec<u32>>) -> CaseOutcome {
     th.add(cmd_errors as u64);
     w.sim.seg.devices[0].stats.sii_write_cmds = 0;
     if mode == 0 || mode == 2 {
-        let alias = match w.sim.tape.choose(4, "alias_class") {
+        let mut alias = match w.sim.tape.choose(4, "alias_class") {
             0 => w.sim.tape.pick(&[0u16, 1, 0xffff, 0x8000, 0x00ff, 0xff00, 0x1234], "alias_edge"),
             _ => w.sim.tape.choose(0x10000, "alias") as u16,
         };
+        // The alias the device already holds (a repeated or retried request).
+        if crate::tape::gen() >= 2 && w.sim.tape.flag(20, 100, "alias_same_as_stored") {
+            alias = u16::from_le_bytes([before[8], before[9]]);
+            out.probes.insert("alias_equals_stored_alias".into(), 1);
+            if sii::crc8(&before[0..14]) as u16 != u16::from_le_bytes([before[14], before[15]]) {
+                out.probes.insert("alias_equals_stored_alias_with_stale_checksum".into(), 1);
+            }
+        }
+        // A first attempt that fails after the alias word was stored (more command errors than the
+        // retry bound on the checksum word), then the retry that is judged below.
+        if crate::tape::gen() >= 2 && mode == 0 && w.sim.tape.flag(15, 100, "retry_after_failed_attempt") {
+            let errs = w.sim.tape.pick(&[21u32, 25, 30], "first_attempt_errors");
+            w.sim.seg.devices[0].arm_sii_cmd_errors_after(1, errs);
+            let mut it = group.iter_mut(md);
+            let mut sd = it.next().expect("one device");
+            let first = w.sim.block_on(sd.set_alias_address(alias));
+            drop(it);
+            w.sim.seg.devices[0].arm_sii_cmd_errors(0);
+            // The bound on write commands is per call: count the judged call only.
+            w.sim.seg.devices[0].stats.sii_write_cmds = 0;
+            out.probes.insert("retry_after_failed_attempt".into(), 1);
+            if let Err(e) = first {
+                out.violations.push(sim_error_violation("set_alias_address", &e));
+            }
+        }
         th.add(alias as u64);
         if mode == 2 {
             w.sim.seg.devices[0].faults.sii_busy_forever = true;
@@ -862,7 +893,7 @@ pub fn c14_case(rs: u64, _nonce: u64, replay: Option<Vec<u32>>) -> CaseOutcome {
             _ => w.sim.tape.choose(words - 8, "addr_any"),
         };
         w.sim.seg.devices[0].arm_sii_cmd_errors(cmd_errors.min(20));
-        let kind = w.sim.tape.choose(5, "wr_kind");
+        let kind = w.sim.tape.choose(if crate::tape::gen() >= 2 { 8 } else { 5 }, "wr_kind");
         let payload: Vec<u8> = (0..8).map(|i| w.sim.tape.choose(256, "wr_byte") as u8 ^ i).collect();
         th.add(addr as u64);
         th.add(kind as u64);
@@ -872,6 +903,15 @@ pub fn c14_case(rs: u64, _nonce: u64, replay: Option<Vec<u32>>) -> CaseOutcome {
             1 => (w.sim.block_on(sd.eeprom_write_dangerously(md, addr as u16, u32::from_le_bytes([payload[0], payload[1], payload[2], payload[3]]))), 4),
             2 => (w.sim.block_on(sd.eeprom_write_dangerously(md, addr as u16, payload[0])), 1),
             3 => (w.sim.block_on(sd.eeprom_write_dangerously(md, addr as u16, payload[0] as i8)), 1),
+            5..=7 => {
+                // Odd (and other) lengths through the crate's range writer itself: the typed API
+                // only offers 1, 2, 4 and 8 byte values. The range is the payload rounded up to
+                // whole words, or a few words longer.
+                let n = [3usize, 5, 7][kind - 5];
+                let range = (n + 1) / 2 * 2 + 2 * w.sim.tape.choose(3, "wr_range_extra");
+                let r = w.sim.block_on(ethercrab::verif::eeprom_range_write(md, 0x1000, addr as u16, range as u16, &payload[..n]));
+                (r.map(|r| r.map(|count| if count != n { out.violations.push(viol("generic-write-wrong-count", format!("write of {} bytes reported {} bytes written", n, count))) })), n)
+            }
             _ => (w.sim.block_on(sd.eeprom_write_dangerously(md, addr as u16, u64::from_le_bytes(payload[..8].try_into().unwrap()))), 8),
         };
         let after = w.sim.seg.devices[0].eeprom.clone();
